@@ -5,4 +5,5 @@ INVARIANT C20_Intact
 INVARIANT C20_AtMostOnce
 INVARIANT C20_SenderOrder
 INVARIANT C20_AllDelivered
+INVARIANT C20_StayersServed
 CHECK_DEADLOCK FALSE
